@@ -20,7 +20,15 @@ for rf in sorted(glob.glob("/tmp/mut_out/*/result_*.json")):
     os.makedirs(out, exist_ok=True)
     shutil.copy(os.path.join(d, "mutation_%s.diff" % k), os.path.join(out, "patch.diff"))
     shutil.copy(os.path.join(d, "demo_%s.py" % k), os.path.join(out, "demo.py"))
-    meta = json.load(open(os.path.join(d, "meta_%s.json" % k)))
+    mf = os.path.join(d, "meta_%s.json" % k)
+    if not os.path.exists(mf):
+        mf = os.path.join(d, "notes_%s.json" % k)
+    meta = json.load(open(mf))
+    if "needs" not in meta:
+        meta["needs"] = meta.get("needs_to_manifest")
+    prev = {}
+    if os.path.exists(os.path.join(out, "meta.json")):
+        prev = json.load(open(os.path.join(out, "meta.json")))
     caught = {c: (v["rc"] != 0) for c, v in r["checks"].items()}
     first = {c: [l for l in v["lines"] if l.startswith("VIOLATION")][:2] for c, v in r["checks"].items()}
     meta_out = {
@@ -34,15 +42,26 @@ for rf in sorted(glob.glob("/tmp/mut_out/*/result_*.json")):
         "checks_run": {c: {"exit": v["rc"], "lines": v["lines"][:4]} for c, v in r["checks"].items()},
         "caught_by": sorted(c for c, ok in caught.items() if ok),
     }
+    # a change that an earlier version of the checks missed keeps saying so
+    missed_before = prev.get("missed_at_first") or (sorted(c for c, ok in {x: (y["exit"] != 0) for x, y in prev.get("checks_run", {}).items()}.items() if not ok))
+    if missed_before:
+        meta_out["missed_at_first"] = missed_before
     json.dump(meta_out, open(os.path.join(out, "meta.json"), "w"), indent=1)
     rows.append((sid, prop, meta.get("summary", ""), meta.get("needs", ""), caught, first))
+
+rows = []
+for mf in sorted(glob.glob(os.path.join(ROOT, "seeded", "*", "meta.json"))):
+    m = json.load(open(mf))
+    caught = {c: (v["exit"] != 0) for c, v in m.get("checks_run", {}).items()}
+    rows.append((m["id"], m["breaks_property"], m.get("summary") or "", m.get("needs_to_manifest") or "", caught, m.get("missed_at_first")))
 
 with open(os.path.join(ROOT, "seeded", "README.md"), "w") as f:
     f.write("# Seeded changes\n\nEach directory holds one independently written change to lakiw/pcfg_cracker that breaks a property while the\n"
             "75 pinned tests still pass (`patch.diff`), its demonstration (`demo.py`: exit 0 on the unchanged tree, non-zero with the\n"
             "change) and `meta.json` (what it needs to manifest, what was run, which checks report it). None of them is ever\n"
-            "committed to /repo.\n\n| id | property | change | needs | reported by |\n|---|---|---|---|---|\n")
-    for sid, prop, summ, needs, caught, first in rows:
+            "committed to /repo. Ids -1/-2 are the first round, -3/-4 the second (a fresh set of sub-agents).\n\n"
+            "| id | property | change | needs | reported by | missed at first by |\n|---|---|---|---|---|---|\n")
+    for sid, prop, summ, needs, caught, missed in rows:
         cb = ", ".join("%s%s" % (c, "" if ok else " (missed)") for c, ok in sorted(caught.items()))
-        f.write("| %s | %s | %s | %s | %s |\n" % (sid, prop, (summ or "").replace("|", "/")[:220], (needs or "").replace("|", "/")[:220], cb))
-print(len(rows), "kept")
+        f.write("| %s | %s | %s | %s | %s | %s |\n" % (sid, prop, summ.replace("|", "/")[:220], needs.replace("|", "/")[:220], cb, ", ".join(missed or [])))
+print(len(rows), "kept in all")
